@@ -6,7 +6,7 @@ import ast
 from ..cfg import CFG
 from ..core import AnalysisError, own_nodes, short, unparse
 from ..modelfacts import ModelFacts
-from ..rules import isdrules, live, pur
+from ..rules import isdrules, live, pur, shape
 from ..typing_lite import Typer
 from . import common
 
@@ -150,6 +150,7 @@ def run(ctx):
   isdrules.check_prune_predicate(ctx, cc, has_region_atom=False)
   check_copy_to(ctx)
   check_region_background(ctx)
+  shape.check_content_interval_hull(ctx)
   check_no_shared_state(ctx, fs)
   # positive fixture for the zero-expected PUR rule
   from ..selfcheck import pur_fixture_matches
